@@ -108,6 +108,7 @@ class WebSocketServer(websocket.WebSocketServerProtocol):
         self._did_open = False
         self._mailbox = None
         self._mailbox_id = None
+        self._mailbox_deleted = False
         self._did_close = False
 
     def onConnect(self, request):
@@ -243,13 +244,18 @@ class WebSocketServer(websocket.WebSocketServerProtocol):
             self.send("message", side=sm.side, phase=sm.phase,
                       body=sm.body, server_rx=sm.server_rx, id=sm.msg_id)
         def _stop():
-            pass
+            # the mailbox was deleted out from under us (the last open side
+            # closed it on another connection): a later "add" must not
+            # store a message in a mailbox that no longer exists
+            self._listening = False
+            self._mailbox_deleted = True
+        self._mailbox_deleted = False
         self._listening = True
         for old_sm in self._mailbox.add_listener(self, _send, _stop):
             _send(old_sm)
 
     def handle_add(self, msg, server_rx):
-        if not self._mailbox:
+        if not self._mailbox or self._mailbox_deleted:
             raise Error("must open mailbox before adding")
         if "phase" not in msg:
             raise Error("missing 'phase'")
@@ -273,12 +279,13 @@ class WebSocketServer(websocket.WebSocketServerProtocol):
             if self._mailbox_id is None:
                 raise Error("close without mailbox must follow open")
             mailbox_id = self._mailbox_id
-        if not self._mailbox:
+        if not self._mailbox or self._mailbox_deleted:
             try:
                 self._mailbox = self._app.open_mailbox(mailbox_id, self._side,
                                                        server_rx)
             except CrowdedError:
                 raise Error("crowded")
+            self._mailbox_deleted = False
         if self._listening:
             self._mailbox.remove_listener(self)
             self._listening = False
